@@ -530,10 +530,66 @@ def canc_set(prog):
     return canc
 
 
+def _with_context_rule(prog, rep):
+    """(iii) on the inlined view: a classification that moved into a new helper (`error.keeps_own_context()`) is judged inside with_context"""
+    # (iii)
+    wc = [f for f in prog.shape_fns() if f.name == "with_context" and f.trait == "tsg::execution::error::ResultWithExecutionError"]
+    ok3 = False
+    from ..lib.cfgq import reach_const_aware
+    for f in wc:
+        for c in [f] + prog.closures_of(f):
+            body = c.body
+            tr = Tracer(body)
+            for b in sorted(body.reachable()):
+                for g in switch_edges(body, tr, b):
+                    if g.variant == "Cancelled":
+                        # no InContext aggregate reachable from the Cancelled edge (a classification kept in a bool is followed)
+                        r = reach_const_aware(body, g.dst)
+                        wraps = False
+                        for x in r:
+                            for st in body.blocks[x]["stmts"]:
+                                if st["k"] == "assign" and st["rv"]["k"] == "aggregate" and st["rv"].get("variant") == "InContext":
+                                    wraps = True
+                        # the returned value is the input
+                        if not wraps:
+                            ok3 = True
+                            rep.ok("E2.c", "%s :: Cancelled arm" % c.id, c.loc(), "the Cancelled arm of with_context returns its input without wrapping")
+                        else:
+                            rep.violation("E2.c", "%s :: Cancelled arm" % c.id, c.loc(), "with_context can wrap a Cancelled error into InContext")
+    if not ok3:
+        rep.violation("E2.c", "anchor-lost:with_context Cancelled arm", "", "no switch arm for ExecutionError::Cancelled found in with_context")
+    # … and no wrapping arm is tried *before* the Cancelled arm: every construction of InContext in with_context happens on an edge
+    # that has already excluded Cancelled (a non-Cancelled variant arm, or the fall-through of a switch that lists Cancelled)
+    from ..lib.cfgq import dominating_guards as _dg
+    for f in wc:
+        for c in [f] + prog.closures_of(f):
+            body = c.body
+            tr = Tracer(body)
+            for b in sorted(body.reachable()):
+                for st in body.blocks[b]["stmts"]:
+                    if not (st["k"] == "assign" and st["rv"]["k"] == "aggregate" and st["rv"].get("variant") == "InContext"):
+                        continue
+                    excluded = False
+                    for xb in sorted(body.reachable()):
+                        sw = switch_edges(body, tr, xb)
+                        ce = [e for e in sw if e.variant == "Cancelled"]
+                        if not ce or not body.dominates(xb, b):
+                            continue
+                        # the error was classified before this wrap, and the wrap does not lie on what follows the Cancelled edge
+                        # (a classification kept in a boolean is followed with its constant)
+                        if all(b not in reach_const_aware(body, e.dst) for e in ce):
+                            excluded = True
+                    rep.check(excluded, "E2.c", "%s :: wrap only after Cancelled is excluded #%d" % (c.id, b), sp_str(st["sp"]),
+                              "this InContext is built on an edge of the switch that lists Cancelled, other than the Cancelled edge",
+                              "with_context builds InContext before the error was tested for Cancelled: a cancellation that passes this wrapper comes out wrapped")
+
+
 def run_e2c(prog, rep):
     # audit of the program as written: no helper inlining / loop desugaring (see facts.Program.raw)
     with prog.raw():
-        return _run_e2c(prog, rep)
+        out = _run_e2c(prog, rep)
+    _with_context_rule(prog, rep)
+    return out
 
 
 def _run_e2c(prog, rep):
@@ -661,56 +717,6 @@ def _run_e2c(prog, rep):
     # (ii') a closure that may return Cancelled: whoever runs it must keep its errors (map+collect::<Result>, try_for_each …; not
     # flat_map / filter_map / last / for_each, which drop them and let the execution carry on)
     n_sites += _closure_results(prog, rep, [f for f in sorted(prog.shape_fns(), key=lambda x: x.id) if f.kind == "closure" and f.id in canc and f.crate.prefix == "tsg"], "E2.c")
-    # (iii)
-    wc = [f for f in prog.shape_fns() if f.name == "with_context" and f.trait == "tsg::execution::error::ResultWithExecutionError"]
-    ok3 = False
-    from ..lib.cfgq import reach_const_aware
-    for f in wc:
-        for c in [f] + prog.closures_of(f):
-            body = c.body
-            tr = Tracer(body)
-            for b in sorted(body.reachable()):
-                for g in switch_edges(body, tr, b):
-                    if g.variant == "Cancelled":
-                        # no InContext aggregate reachable from the Cancelled edge (a classification kept in a bool is followed)
-                        r = reach_const_aware(body, g.dst)
-                        wraps = False
-                        for x in r:
-                            for st in body.blocks[x]["stmts"]:
-                                if st["k"] == "assign" and st["rv"]["k"] == "aggregate" and st["rv"].get("variant") == "InContext":
-                                    wraps = True
-                        # the returned value is the input
-                        if not wraps:
-                            ok3 = True
-                            rep.ok("E2.c", "%s :: Cancelled arm" % c.id, c.loc(), "the Cancelled arm of with_context returns its input without wrapping")
-                        else:
-                            rep.violation("E2.c", "%s :: Cancelled arm" % c.id, c.loc(), "with_context can wrap a Cancelled error into InContext")
-    if not ok3:
-        rep.violation("E2.c", "anchor-lost:with_context Cancelled arm", "", "no switch arm for ExecutionError::Cancelled found in with_context")
-    # … and no wrapping arm is tried *before* the Cancelled arm: every construction of InContext in with_context happens on an edge
-    # that has already excluded Cancelled (a non-Cancelled variant arm, or the fall-through of a switch that lists Cancelled)
-    from ..lib.cfgq import dominating_guards as _dg
-    for f in wc:
-        for c in [f] + prog.closures_of(f):
-            body = c.body
-            tr = Tracer(body)
-            for b in sorted(body.reachable()):
-                for st in body.blocks[b]["stmts"]:
-                    if not (st["k"] == "assign" and st["rv"]["k"] == "aggregate" and st["rv"].get("variant") == "InContext"):
-                        continue
-                    excluded = False
-                    for xb in sorted(body.reachable()):
-                        sw = switch_edges(body, tr, xb)
-                        ce = [e for e in sw if e.variant == "Cancelled"]
-                        if not ce or not body.dominates(xb, b):
-                            continue
-                        # the error was classified before this wrap, and the wrap does not lie on what follows the Cancelled edge
-                        # (a classification kept in a boolean is followed with its constant)
-                        if all(b not in reach_const_aware(body, e.dst) for e in ce):
-                            excluded = True
-                    rep.check(excluded, "E2.c", "%s :: wrap only after Cancelled is excluded #%d" % (c.id, b), sp_str(st["sp"]),
-                              "this InContext is built on an edge of the switch that lists Cancelled, other than the Cancelled edge",
-                              "with_context builds InContext before the error was tested for Cancelled: a cancellation that passes this wrapper comes out wrapped")
     return n_polls, n_sites, canc
 
 
